@@ -2,7 +2,11 @@ package main
 
 import (
 	"encoding/json"
+	"errors"
 	"fmt"
+	"github.com/scrapli/scrapligo/driver/generic"
+	"github.com/scrapli/scrapligo/driver/network"
+	"github.com/scrapli/scrapligo/driver/options"
 	"os"
 	"regexp"
 	"runtime"
@@ -121,7 +125,7 @@ func c07One(sc *c07Scn, idx int) verdict {
 		return c07Real(sc, idx)
 	}
 
-	name := fmt.Sprintf("%s/%s/closes=%d/%s/%s<%s/rd=%d", sc.Driver, sc.State, sc.Closes, sc.CloseBeh, sc.Before, sc.After, sc.ReadDelay)
+	name := fmt.Sprintf("%s/%s/closes=%d/%s/%s<%s/rd=%d/onclose=%v", sc.Driver, sc.State, sc.Closes, sc.CloseBeh, sc.Before, sc.After, sc.ReadDelay, sc.OnClose)
 	v := verdict{ID: idx, Variant: name, OK: true, Nontrivial: true}
 	sigBase := fmt.Sprintf("C07:%s:%s:closes=%d:%s", sc.Driver, sc.State, sc.Closes, sc.CloseBeh)
 
@@ -137,6 +141,21 @@ func c07One(sc *c07Scn, idx int) verdict {
 	if sc.State == "inflight" {
 		// the operation in flight must be ended by Close, not by its own timer
 		cfg.connTimeout = 5 * time.Second
+	}
+
+	if sc.OnClose {
+		// an on-close hook that fails (it tries to say goodbye on a connection that may be gone): Close must go on regardless
+		cfg.extra = append(cfg.extra,
+			options.WithOnClose(func(d *generic.Driver) error {
+				_ = d.Channel.WriteAndReturn([]byte("exit"), false)
+
+				return errors.New("on-close hook failed")
+			}),
+			options.WithNetworkOnClose(func(d *network.Driver) error {
+				_ = d.Channel.WriteAndReturn([]byte("exit"), false)
+
+				return errors.New("network on-close hook failed")
+			}))
 	}
 
 	var build func(c sessCfg) (*sess, error)
